@@ -13,10 +13,11 @@ for name in $names; do
   rm -rf "$w"
   fired=$(echo "$out" | grep -E '^\s+\S+: \[(violated|undecided)\]' | sed -E 's/^.*\] //' | sort -u)
   props=$(echo "$out" | grep '^VIOLATION' | sed -E 's/.*property=(C[0-9]+).*/\1/' | sort -u | tr '\n' ' ')
-  echo "== $name: detected_by=[${props}]"
+  own=${name%%-*}; case " $props " in *" $own "*) ownhit=yes;; *) ownhit=NO;; esac
+  echo "== $name: own_property_check_detects=$ownhit detected_by=[${props}]"
   echo "$fired" | sed 's/^/     /'
-  python3 - "$d/eval.json" "$props" "$fired" <<'P'
+  python3 - "$d/eval.json" "$props" "$fired" "$ownhit" "$(git -C /verif rev-parse --short HEAD)" "$(git -C /repo rev-parse --short HEAD)" <<'P'
 import json,sys,time
-json.dump({"detected_by":sys.argv[2].split(),"obligations":[l for l in sys.argv[3].splitlines() if l.strip()],"when":time.strftime('%Y-%m-%dT%H:%M:%S')},open(sys.argv[1],'w'),indent=1)
+json.dump({"own_property_check_detects":sys.argv[4]=="yes","detected_by":sys.argv[2].split(),"obligations":[l for l in sys.argv[3].splitlines() if l.strip()],"verif_commit":sys.argv[5],"repo_commit":sys.argv[6],"when":time.strftime('%Y-%m-%dT%H:%M:%S')},open(sys.argv[1],'w'),indent=1)
 P
 done
